@@ -38,6 +38,7 @@ type relayFaults struct {
 	asyncSend time.Duration // > 0: Send only queues the message locally and returns; it is on its way after this long, unless the stream's context is cancelled first (gRPC client streams)
 	capMsgs   int           // mailbox capacity in messages: a Send blocks while the box holds that many (0 = unbounded)
 	delErrPm  int           // DelCipherBox fails (at any time, not only before `until`); the box may or may not be gone
+	garbageAny bool // garbagePm applies to every stream (re)opening before `until`, not only to the first one per stream id
 	garbagePm int           // the first message delivered by the first receive stream ever opened on a stream id is garbage: the GBN handshake on it fails, Dial/Accept report an error, the application retries
 }
 
@@ -404,7 +405,9 @@ func (r *relay) RecvStream(ctx context.Context, in *hashmailrpc.CipherBoxDesc, _
 	rs := &recvStream{r: r, ctx: ctx, id: id}
 	// (only the very first time a stream id is opened: a bounded number of
 	// faults per session, so that "after the faults" exists)
-	if r.f.garbagePm > 0 && r.sids[id] == 1 && simrt.Pm(r.f.garbagePm, "relay.garbage-first") {
+	// ... or, with garbageAny, on any (re)opening of a stream while the relay's
+	// fault period lasts
+	if r.f.garbagePm > 0 && (r.sids[id] == 1 || r.f.garbageAny && r.faulty()) && simrt.Pm(r.f.garbagePm, "relay.garbage-first") {
 		r.rc.Fault("relay-garbage-on-fresh-stream")
 		rs.garbageFirst = true
 	}
